@@ -143,6 +143,7 @@ class Parser:
         self.expect('(')
         params = []
         while not self.accept(')'):
+            self.accept('&')
             self.accept('mut')
             if self.peek()[1] == 'self':
                 self.next()
@@ -221,6 +222,19 @@ class Parser:
             if self.accept(';'):
                 return ('expr', e)
             return ('expr_nosemi', e)
+        if v == 'while':
+            self.next()
+            c = self.parse_expr()
+            b = self.parse_block()
+            return ('while', c, b)
+        if v == 'loop':
+            self.next()
+            b = self.parse_block()
+            return ('while', ('bool', True), b)
+        if v in ('break', 'continue'):
+            self.next()
+            self.accept(';')
+            return (v,)
         e = self.parse_expr()
         if self.peek()[1] in ('=', '+=', '-=', '*=', '/=', '%=', '&=', '|=', '^=', '<<=', '>>='):
             op = self.next()[1]
@@ -372,13 +386,20 @@ def lean_ident(n):
 
 
 class Emitter:
-    def __init__(self, fns, self_ty=None):
-        self.fns = fns          # name -> (lean name, param types, ret type)
-        self.self_ty = self_ty
+    def __init__(self, fns, self_ty=None, structs=None, gconsts=None, self_name=None):
+        self.fns = fns          # name -> (lean name, param types, ret type[, needs fuel])
+        self.structs = structs or {}      # struct name -> tuple type
+        self.gconsts = gconsts or {}      # 'Type::CONST' -> (lean term, type)
+        self.self_name = self_name
+        self.self_ty = self.structs.get(self_ty, self_ty) if isinstance(self_ty, str) else self_ty
         self.consts = {}        # local const name -> (lean term, type)
 
     def ty(self, t):
-        return self.self_ty if t == 'Self' else t
+        if t == 'Self':
+            return self.self_ty
+        if isinstance(t, str) and t in getattr(self, 'structs', {}):
+            return self.structs[t]
+        return t
 
     def w(self, t):
         t = self.ty(t)
@@ -403,7 +424,11 @@ class Emitter:
                 if n in self.consts:
                     return self.consts[n]
                 raise TranslateError('unknown variable %s' % n)
-            if len(p) == 2 and p[1] in ('MAX', 'MIN', 'BITS') and self.ty(p[0]) in WIDTH:
+            if len(p) == 2:
+                key = '%s::%s' % (self.self_name if p[0] == 'Self' and self.self_name else p[0], p[1])
+                if key in getattr(self, 'gconsts', {}):
+                    return self.gconsts[key]
+            if len(p) == 2 and isinstance(self.ty(p[0]), str) and p[1] in ('MAX', 'MIN', 'BITS') and self.ty(p[0]) in WIDTH:
                 t = self.ty(p[0])
                 return {'MAX': '(2 ^ %d - 1)' % WIDTH[t], 'MIN': '0', 'BITS': str(WIDTH[t])}[p[1]], (t if p[1] != 'BITS' else 'u32')
             raise TranslateError('unsupported path %s' % '::'.join(p))
@@ -510,10 +535,12 @@ class Emitter:
         if len(path) == 1:
             if name in ('unlikely', 'likely', 'Wrapping'):
                 return self.expr(args[0], env, exp)
+            sty = self.ty(name)
+            if isinstance(sty, tuple) and sty[0] == 'tuple' and (name == 'Self' or name in getattr(self, 'structs', {})):
+                parts = [self.expr(a, env, t)[0] for a, t in zip(args, sty[1])]
+                return '(' + ', '.join(parts) + ')', sty
             if name in self.fns:
-                ln, pts, rt = self.fns[name]
-                ss = [self.expr(a, env, self.ty(pt))[0] for a, pt in zip(args, pts)]
-                return '(%s %s)' % (ln, ' '.join(ss)), rt
+                return self.call_fn(self.fns[name], args, env)
             raise TranslateError('call to untranslated function %s' % name)
         head = self.ty(path[0])
         if name == 'from' and head in WIDTH:
@@ -521,12 +548,21 @@ class Emitter:
             if t == 'bool':
                 return '(%s).toNat' % s, head
             return s, head
-        key = '%s::%s' % (head, name)
+        key = '%s::%s' % (path[0] if isinstance(head, tuple) else head, name)
+        if path[0] == 'Self' and self.self_name:
+            key = '%s::%s' % (self.self_name, name)
         if key in self.fns:
-            ln, pts, rt = self.fns[key]
-            ss = [self.expr(a, env, self.ty(pt))[0] for a, pt in zip(args, pts)]
-            return '(%s %s)' % (ln, ' '.join(ss)), rt
+            return self.call_fn(self.fns[key], args, env)
         raise TranslateError('unsupported call %s' % '::'.join(path))
+
+    def call_fn(self, sig, args, env):
+        ln, pts, rt = sig[0], sig[1], sig[2]
+        fuel = len(sig) > 3 and sig[3]
+        ss = [self.expr(a, env, self.ty(pt))[0] for a, pt in zip(args, pts)]
+        if fuel:
+            self.uses_fuel = True
+            ss = ['fuel'] + ss
+        return '(%s %s)' % (ln, ' '.join(ss)), rt
 
     def mcall(self, e, env, exp):
         _, recv, name, args = e
@@ -551,9 +587,18 @@ class Emitter:
                 return '(Rs.popcnt %s)' % sr, 'u32'
             key = '%s::%s' % (tr, name)
             if key in self.fns:
-                ln, pts, rt = self.fns[key]
-                ss = [sr] + [self.expr(a, env, self.ty(pt))[0] for a, pt in zip(args, pts[1:])]
-                return '(%s %s)' % (ln, ' '.join(ss)), rt
+                sig = self.fns[key]
+                ss = [sr] + [self.expr(a, env, self.ty(pt))[0] for a, pt in zip(args, sig[1][1:])]
+                return '(%s %s)' % (sig[0], ' '.join(ss)), sig[2]
+        if isinstance(tr, tuple) and tr[0] == 'tuple':
+            for sn, st in self.structs.items():
+                if st == tr and ('%s::%s' % (sn, name)) in self.fns:
+                    sig = self.fns['%s::%s' % (sn, name)]
+                    ss = [sr] + [self.expr(a, env, self.ty(pt))[0] for a, pt in zip(args, sig[1][1:])]
+                    if len(sig) > 3 and sig[3]:
+                        self.uses_fuel = True
+                        ss = ['fuel'] + ss
+                    return '(%s %s)' % (sig[0], ' '.join(ss)), sig[2]
         if tr and tr[0] == 'array' and name == 'get_unchecked':
             i, _ = self.expr(args[0], env, 'usize')
             return '(%s.getD %s 0)' % (sr, i), tr[1]
@@ -603,7 +648,7 @@ class Emitter:
 
     def has_return(self, blk):
         for s in blk[1]:
-            if s[0] == 'return':
+            if s[0] in ('return', 'break', 'continue'):
                 return True
             if s[0] in ('expr', 'expr_nosemi', 'tail') and s[1][0] == 'if':
                 if self.has_return(s[1][2]) or (s[1][3] and self.has_return(s[1][3])):
@@ -616,13 +661,104 @@ class Emitter:
         env = dict(env)
         return self.stmts(blk[1], env, exp, result)
 
+    def finish(self, result, env, flow='cont'):
+        """value of a block that ends normally (or by break/continue/return inside a loop body).
+        loop bodies return `(state, continue?)`; with function-returns inside, the state carries a last
+        `Option ret` component."""
+        if isinstance(result, tuple) and result[0] == 'loop':
+            st, ty = self.vars_tuple(result[1], env)
+            has_ret = result[3]
+            if isinstance(flow, tuple):          # ('ret', term)
+                return '((%s, some %s), false)' % (st, flow[1]), ('tuple', [ty, 'bool'])
+            go = 'true' if flow == 'cont' else 'false'
+            if has_ret:
+                return '((%s, none), %s)' % (st, go), ('tuple', [ty, 'bool'])
+            return '(%s, %s)' % (st, go), ('tuple', [ty, 'bool'])
+        return self.vars_tuple(result, env)
+
+    def names_in(self, node, acc):
+        if isinstance(node, tuple):
+            if node and node[0] == 'path' and len(node[1]) == 1:
+                acc.add(node[1][0])
+            for x in node:
+                self.names_in(x, acc)
+        elif isinstance(node, list):
+            for x in node:
+                self.names_in(x, acc)
+        return acc
+
+    def fn_return_in(self, node):
+        if isinstance(node, tuple):
+            if node and node[0] == 'return':
+                return True
+            return any(self.fn_return_in(x) for x in node)
+        if isinstance(node, list):
+            return any(self.fn_return_in(x) for x in node)
+        return False
+
+    def loop_stmt(self, s, rest, env, exp, result):
+        """`while c { body }` / `loop { body }` over scalar state: a NON-recursive step definition
+        `<fn>_step<k> ctx st : state × Bool` (new state, continue?) iterated by the fuelled `Rs.loop`; the state is the
+        tuple of the variables assigned in the body (plus an `Option ret` slot when the body can `return`)."""
+        _, cond, body = s
+        S = [n for n in self.assigned(body[1], set()) if n in env]
+        if not S:
+            raise TranslateError('loop without state')
+        has_ret = self.fn_return_in(body)
+        if has_ret and result is not None:
+            raise TranslateError('return inside a nested loop is not supported')
+        used = self.names_in([cond, body], set())
+        ctx = [n for n in env if n in used and n not in S]
+        self.nloops = getattr(self, 'nloops', 0) + 1
+        name = '%s_step%d' % (self.cur_fn, self.nloops)
+        self.uses_fuel = True
+        sc, _ = self.expr(cond, dict(env), 'bool')
+        sbody, _ = self.stmts(body[1], dict(env), self.cur_rt, ('loop', S, self.cur_rt, has_ret))
+        sty = self.lean_ty(('tuple', [env[n] for n in S]) if len(S) > 1 else env[S[0]])
+        rty = self.lean_ty(self.cur_rt)
+        full = '(%s) × Option (%s)' % (sty, rty) if has_ret else sty
+        base = 'st.1' if has_ret else 'st'
+        projs = ''
+        for i, n in enumerate(S):
+            proj = ('.2' * i + ('.1' if i < len(S) - 1 else '')) if len(S) > 1 else ''
+            projs += '  let %s := %s%s\n' % (lean_ident(n), ('(%s)' % base) if has_ret else base, proj)
+        params = ' '.join('(%s : %s)' % (lean_ident(n), self.lean_ty(env[n])) for n in ctx)
+        args = ' '.join(lean_ident(n) for n in ctx)
+        aux = ('def %s %s (st : %s) : (%s) × Bool :=\n%s  if %s then (\n  %s)\n  else (st, false)\n'
+               % (name, params, full, full, projs, sc, sbody))
+        self.aux.append(aux)
+        self.tmp = getattr(self, 'tmp', 0) + 1
+        t = 'sel%d' % self.tmp
+        st0, _ = self.vars_tuple(S, env)
+        if has_ret:
+            st0 = '(%s, none)' % st0
+        call = '(Rs.loop (%s %s) fuel %s)' % (name, args, st0)
+        after = ''
+        base = t + '.1' if has_ret else t
+        for i, n in enumerate(S):
+            proj = ('.2' * i + ('.1' if i < len(S) - 1 else '')) if len(S) > 1 else ''
+            after += 'let %s := %s%s\n  ' % (lean_ident(n), ('(%s)' % base) if has_ret else base, proj)
+        if has_ret and not rest:
+            body_rest, tb = 'default', self.cur_rt     # `loop { … return … }`: nothing follows; only reached when the fuel runs out
+        else:
+            body_rest, tb = self.stmts(rest, env, exp, result)
+        if has_ret:
+            return ('let %s := %s\n  %s(%s.2).getD (\n  %s)' % (t, call, after, t, body_rest)), tb
+        return 'let %s := %s\n  %s%s' % (t, call, after, body_rest), tb
+
     def stmts(self, stmts, env, exp, result):
         if not stmts:
             if result is not None:
-                return self.vars_tuple(result, env)
+                return self.finish(result, env)
             return '()', ('tuple', [])
         s, rest = stmts[0], stmts[1:]
         k = s[0]
+        if k == 'while':
+            return self.loop_stmt(s, rest, env, exp, result)
+        if k in ('break', 'continue'):
+            if not (isinstance(result, tuple) and result[0] == 'loop'):
+                raise TranslateError('%s outside a loop body' % k)
+            return self.finish(result, env, 'brk' if k == 'break' else 'cont')
         if k == 'const':
             t = self.ty(s[2])
             if isinstance(t, tuple) and t[0] == 'array':
@@ -662,6 +798,9 @@ class Emitter:
             body, tb = self.stmts(rest, env, exp, result)
             return 'let %s := %s\n  %s' % (lean_ident(n), se, body), tb
         if k == 'return':
+            if isinstance(result, tuple) and result[0] == 'loop':
+                se, _ = self.expr(s[1], env, self.cur_rt)
+                return self.finish(result, env, ('ret', se))
             return self.expr(s[1], env, exp)
         if k in ('expr', 'expr_nosemi', 'tail') and s[1][0] == 'if':
             _, c, a, b = s[1]
@@ -700,14 +839,14 @@ class Emitter:
             if rest:
                 return self.stmts(rest, env, exp, result)
             if result is not None:
-                return self.vars_tuple(result, env)
+                return self.finish(result, env)
             return self.expr(s[1], env, exp)
         if k == 'expr':
             return self.stmts(rest, env, exp, result)
         raise TranslateError('unsupported statement %r' % (k,))
 
     def ends_with_return(self, blk):
-        return bool(blk[1]) and blk[1][-1][0] == 'return'
+        return bool(blk[1]) and blk[1][-1][0] in ('return', 'break', 'continue')
 
     def vars_tuple(self, names, env):
         if len(names) == 1:
@@ -735,17 +874,26 @@ class Emitter:
             env[n] = t
             params.append('(%s : %s)' % (lean_ident(n), self.lean_ty(t)))
         rt = self.ty_deep(fn['ret'])
+        self.cur_rt = rt
+        self.aux = []
+        self.uses_fuel = False
+        self.nloops = 0
         body, tb = self.block(fn['body'], env, rt)
         out = ''
         for tn, (term, t) in self.tables.items():
             out += 'def %s_%s : List Nat :=\n  %s\n\n' % (lean_name, tn, term)
+        for a in self.aux:
+            out += a + '\n'
+        if self.uses_fuel:
+            params = ['(fuel : Nat)'] + params
         out += 'def %s %s : %s :=\n  %s\n' % (lean_name, ' '.join(params), self.lean_ty(rt), body)
         return out
 
     def ty_deep(self, t):
+        t = self.ty(t)
         if isinstance(t, tuple) and t[0] == 'tuple':
             return ('tuple', [self.ty_deep(x) for x in t[1]])
-        return self.ty(t)
+        return t
 
     def lean_ty(self, t):
         if t == 'bool':
@@ -772,6 +920,10 @@ def osub (w a b : Nat) : Nat × Bool := ((a + 2 ^ w - b) % 2 ^ w, decide (a < b)
 def omul (w a b : Nat) : Nat × Bool := ((a * b) % 2 ^ w, decide (2 ^ w ≤ a * b))
 /-- number of leading zero bits of a `w`-bit word -/
 def clz (w a : Nat) : Nat := w - Nat.log2 a - (if a = 0 then 0 else 1)
+/-- iterate `step` (new state, continue?) at most `fuel` times, stopping when it says so -/
+def loop {σ : Type} (step : σ → σ × Bool) : Nat → σ → σ
+  | 0, s => s
+  | fuel + 1, s => if (step s).2 then loop step fuel (step s).1 else (step s).1
 end Rs
 '''
 
@@ -791,10 +943,10 @@ def translate(items, namespace='Ruint.Gen', imports=('Ruint.Gen.Prelude',), fns=
             src = open(it['file']).read()
             text = extract_fn(src, it['fn'])
             fn = Parser(tokenize(text)).parse_fn()
-            em = Emitter(fns, it.get('self_ty'))
+            em = Emitter(fns, it.get('self_ty'), structs=it.get('structs'), gconsts=it.get('gconsts'), self_name=it.get('self_name'))
             code = em.function(fn, it['lean'])
             key = it.get('key', it['fn'])
-            fns[key] = (it['lean'], [em.ty(t) for _, t in fn['params']], em.ty_deep(fn['ret']))
+            fns[key] = (it['lean'], [em.ty(t) for _, t in fn['params']], em.ty_deep(fn['ret']), em.uses_fuel)
             for alias in it.get('aliases', []):
                 fns[alias] = fns[key]
             out.append('/-- `%s` (%s) -/\n%s' % (it['fn'], it['file'].split('/src/')[-1], code))
@@ -832,7 +984,31 @@ def default_items(repo):
     ]
 
 
+MATRIX = ('tuple', ['u64', 'u64', 'u64', 'u64', 'bool'])
+
+
+def lehmer_items(repo):
+    f = repo + '/src/algorithms/gcd/matrix.rs'
+    src = open(f).read()
+    st = {'Matrix': MATRIX}
+    gc = {}
+    m = re.search(r'const\s+IDENTITY\s*:\s*Self\s*=\s*Self\(([^;]*)\);', src)
+    if m:
+        parts = [x.strip() for x in m.group(1).split(',')]
+        gc['Matrix::IDENTITY'] = ('(' + ', '.join(parts) + ')', MATRIX)
+    m = re.search(r'const\s+LIMIT\s*:\s*u64\s*=\s*([^;]*);', src)
+    common = {'structs': st, 'gconsts': gc, 'self_ty': 'Matrix', 'self_name': 'Matrix', 'group': 'lehmer', 'file': f}
+    out = []
+    for fn, lean in (('compose', 'lehmer_compose'), ('apply_u128', 'lehmer_apply_u128'), ('from_u64', 'lehmer_from_u64'),
+                     ('from_u64_prefix', 'lehmer_from_u64_prefix'), ('from_u128_prefix', 'lehmer_from_u128_prefix')):
+        d = dict(common)
+        d.update({'fn': fn, 'lean': lean, 'key': 'Matrix::' + fn})
+        out.append(d)
+    return out
+
+
 GROUPS = [('core', 'Words', ('Ruint.Gen.Prelude',)),
+          ('lehmer', 'WordsLehmer', ('Ruint.Gen.Prelude',)),
           ('redc', 'WordsRedc', ('Ruint.Gen.Words',)),
           ('div', 'WordsDiv', ('Ruint.Gen.Words',))]
 
@@ -843,6 +1019,10 @@ def translate_all(repo):
     files = {'Prelude': PRELUDE}
     errors = []
     items = default_items(repo)
+    try:
+        items += lehmer_items(repo)
+    except (OSError, IOError) as ex:
+        errors.append('lehmer: %s' % ex)
     for g, modname, imports in GROUPS:
         code, errs = translate(items, imports=imports, fns=fns, only_group=g)
         files[modname] = code
